@@ -792,7 +792,8 @@ class Converter:
                 )
                 element = ast.Slice(
                     ast.Constant(index, **kwargs),
-                    ast.Constant(index + 1, **kwargs),
+                    # The element after the last one (index -1) is the end of the axis, not 0.
+                    ast.Constant(index + 1, **kwargs) if index != -1 else None,
                     ast.Constant(1, **kwargs),
                 )
                 sliced_indices.append((axis, element))
